@@ -1,4 +1,312 @@
-//! vabi09: engine for C09 (stub)
+//! vabi09: engine for C09 "ABI calls are transparent".
+//!
+//! Exhaustive enumeration of a generated interface family (build.rs) x value lists x ownership
+//! modes x panic payload kinds x drop orders; every state is executed twice on the real
+//! savefile-abi code (direct call of the recording implementation, and the same call through
+//! `AbiConnection::from_boxed_trait`) and the two event traces are compared.
+//!
+//! Process layout: the parent spawns worker processes (`vcommon::child::run_workers`); a worker
+//! sweeps the entries `pos % n == k`. A worker that dies (abort, segfault: e.g. a double free) is
+//! attributed to the state it was executing and restarted behind it. A worker that sees
+//! `from_boxed_trait` panic abandons itself (the panic happens while savefile-abi holds a global
+//! mutex, which stays poisoned) and is restarted behind that entry.
+#[allow(unused_mut, unused_variables, non_snake_case, clippy::all)]
+mod family;
+mod asyncfam;
+mod cases;
+mod engine;
+mod support;
+
+use cases::Case;
+use engine::Stats;
+use std::io::Write;
+use support::TraitMeta;
+use vcommon::serde_json::{json, Map, Value};
+use vcommon::{parse_args, Run, Tier};
+
+struct Entry {
+    tm: &'static TraitMeta,
+    methods: Vec<usize>,
+}
+
+/// Deterministic work list: one entry per method, except for the connection-time traits, which
+/// are one entry each (all their methods share the fate of the connection).
+fn entries(thorough: bool) -> Vec<Entry> {
+    let mut v = vec![];
+    for tm in engine::all_traits() {
+        if !thorough && !tm.quick {
+            continue;
+        }
+        if tm.isolate {
+            v.push(Entry { tm, methods: (0..tm.methods.len()).collect() });
+        } else {
+            for mi in 0..tm.methods.len() {
+                v.push(Entry { tm, methods: vec![mi] });
+            }
+        }
+    }
+    v
+}
+
+fn entry_cases(e: &Entry, thorough: bool) -> Vec<(usize, Case)> {
+    let mut out = vec![];
+    for mi in &e.methods {
+        let mm = &e.tm.methods[*mi];
+        // the method-count traits are about connection-time behaviour and dispatch by method
+        // number: a reduced list per method keeps their entries short
+        let mut cs = cases::cases_of(e.tm, mm, thorough && !e.tm.isolate);
+        if e.tm.isolate && e.tm.methods.len() > 8 {
+            cs.retain(|c| c.panic != "any" && c.panic != "static_str");
+            let keep_every = if thorough { 1 } else { 4 };
+            let mut i = 0;
+            cs.retain(|c| {
+                i += 1;
+                c.panic != "none" || i % keep_every == 1
+            });
+        }
+        out.extend(cs.into_iter().map(|c| (*mi, c)));
+    }
+    out
+}
+
+const SKIP_ENTRY: u64 = 1 << 40;
+
+fn child(thorough: bool, k: usize, n: usize, resume: (i64, u64)) -> ! {
+    vcommon::child::install_crash_handler();
+    let es = entries(thorough);
+    let out = std::io::stdout();
+    for (pos, e) in es.iter().enumerate() {
+        if pos % n != k || (pos as i64) < resume.0 {
+            continue;
+        }
+        println!("B {}", pos);
+        let mut st = Stats::default();
+        let mut sno = 0u64;
+        let cs = entry_cases(e, thorough);
+        let mut methods_seen = std::collections::BTreeSet::new();
+        let total = cs.len();
+        for (ci, (mi, case)) in cs.into_iter().enumerate() {
+            sno += 1;
+            if pos as i64 == resume.0 && sno <= resume.1 {
+                continue;
+            }
+            vcommon::child::set_state(&format!("pos={} sno={}", pos, sno));
+            support::CALLS.with(|c| c.set(0));
+            let o = engine::check_case(e.tm, mi, &case, &mut st);
+            st.add("states", 1);
+            st.add("transitions", support::CALLS.with(|c| c.get()));
+            methods_seen.insert(mi);
+            for v in &o.violations {
+                println!("F {}", json!({"oracle": v.oracle, "tags": v.tags, "summary": v.summary, "case": v.case}));
+            }
+            if let Some(m) = o.machinery {
+                println!("E {}", m);
+            }
+            if ci == 0 || ci + 1 == total {
+                println!("X {}", case.to_json());
+            }
+            if o.poisoned {
+                st.add("methods", methods_seen.len() as u64);
+                println!("T {}", json!(st.0));
+                let _ = out.lock().flush();
+                eprintln!("\nCRASH-STATE pos={} sno={} selfexit=1", pos, SKIP_ENTRY);
+                std::process::exit(3);
+            }
+        }
+        st.add("methods", methods_seen.len() as u64);
+        st.add("entries", 1);
+        println!("T {}", json!(st.0));
+    }
+    let _ = out.lock().flush();
+    std::process::exit(0)
+}
+
+fn violation_from_json(j: &Value) -> vcommon::Violation {
+    vcommon::Violation {
+        oracle: j["oracle"].as_str().unwrap_or("").to_string(),
+        tags: j["tags"].as_object().map(|m| m.iter().map(|(k, v)| (k.clone(), v.as_str().unwrap_or("").to_string())).collect()).unwrap_or_default(),
+        summary: j["summary"].as_str().unwrap_or("").to_string(),
+        case: j["case"].clone(),
+    }
+}
+
+fn parent(run: &mut Run) -> Map<String, Value> {
+    let thorough = run.tier == Tier::Thorough;
+    let es = entries(thorough);
+    let n_entries = es.len();
+    let workers = if thorough { 14 } else { 8 };
+    let base = vec![run.property.clone(), "--tier".to_string(), run.tier.name().to_string()];
+    let mut stats = Stats::default();
+    let mut machinery: Vec<String> = vec![];
+    let mut nsample = 0u64;
+    {
+        let cell = std::sync::Mutex::new((&mut *run, &mut stats, &mut machinery, &mut nsample));
+        vcommon::child::run_workers(
+            workers,
+            &base,
+            |_k, line| {
+                let mut g = cell.lock().unwrap();
+                if let Some(j) = line.strip_prefix("F ") {
+                    match vcommon::serde_json::from_str::<Value>(j) {
+                        Ok(v) => g.0.violation(violation_from_json(&v)),
+                        Err(e) => g.2.push(format!("unparsable finding line: {}", e)),
+                    }
+                } else if let Some(j) = line.strip_prefix("T ") {
+                    if let Ok(Value::Object(m)) = vcommon::serde_json::from_str::<Value>(j) {
+                        for (k, v) in m {
+                            g.1.add(&k, v.as_u64().unwrap_or(0));
+                        }
+                    }
+                } else if let Some(j) = line.strip_prefix("X ") {
+                    *g.3 += 1;
+                    let n = *g.3;
+                    if let Ok(v) = vcommon::serde_json::from_str::<Value>(j) {
+                        g.0.sample(n, || v);
+                    }
+                } else if let Some(m) = line.strip_prefix("E ") {
+                    g.2.push(m.to_string());
+                }
+            },
+            |c| {
+                let mut g = cell.lock().unwrap();
+                if c.state.contains("selfexit=1") {
+                    g.1.add("workers_abandoned_after_connect_panic", 1);
+                    return;
+                }
+                // which state was executing? (pos, sno) -> re-enumerate
+                let num = |key: &str| -> Option<u64> { c.state.split_whitespace().find_map(|w| w.strip_prefix(key)).and_then(|x| x.parse().ok()) };
+                let (Some(pos), Some(sno)) = (num("pos="), num("sno=")) else {
+                    g.2.push(format!("worker {} died without a recorded state: {} {}", c.worker, c.status, c.stderr_tail));
+                    return;
+                };
+                let es = entries(thorough);
+                let Some(e) = es.get(pos as usize) else {
+                    g.2.push(format!("worker {} died in unknown entry {}", c.worker, pos));
+                    return;
+                };
+                let cs = entry_cases(e, thorough);
+                let Some((mi, case)) = cs.get(sno as usize - 1) else {
+                    g.2.push(format!("worker {} died in unknown state {}/{}", c.worker, pos, sno));
+                    return;
+                };
+                let mm = &e.tm.methods[*mi];
+                g.1.add("oc.process_died", 1);
+                let msg = c.stderr_tail.lines().filter(|l| !l.starts_with("CRASH-STATE") && !l.trim().is_empty()).last().unwrap_or("").to_string();
+                g.0.violation(vcommon::Violation {
+                    oracle: "process_abort".into(),
+                    tags: vcommon::tags(&[
+                        ("trait", e.tm.name.to_string()),
+                        ("group", mm.group.to_string()),
+                        ("arg_kinds", mm.args.join(",")),
+                        ("ret_kind", mm.ret.to_string()),
+                        ("payload", case.panic.clone()),
+                        ("keep", case.keep.to_string()),
+                        ("order", case.order.clone()),
+                    ]),
+                    summary: format!("process died ({}) while executing {}::{}({}) -> {} panic={} keep={} order={}: {}", c.status, e.tm.name, mm.name, mm.args.join(", "), mm.ret, case.panic, case.keep, case.order, msg),
+                    case: case.to_json(),
+                });
+            },
+            400,
+        );
+    }
+    if !machinery.is_empty() {
+        vcommon::machinery_error(&format!("{} harness problem(s), first: {}", machinery.len(), machinery[0]));
+    }
+    let g = |k: &str| stats.0.get(k).copied().unwrap_or(0);
+    if g("entries") + g("workers_abandoned_after_connect_panic") < n_entries as u64 {
+        vcommon::machinery_error(&format!("only {} of {} entries were completed", g("entries"), n_entries));
+    }
+    let mut cov = Map::new();
+    cov.insert("states".into(), json!(g("states")));
+    cov.insert("transitions".into(), json!(g("transitions")));
+    cov.insert("traces_validated_against_impl".into(), json!(g("traces_validated")));
+    cov.insert("evaluations".into(), json!(g("evaluations")));
+    cov.insert("distinct_nontrivial".into(), json!(g("nontrivial")));
+    cov.insert("methods_exercised".into(), json!(g("methods")));
+    cov.insert("entries".into(), json!(n_entries));
+    cov.insert("traits_in_tier".into(), json!(engine::all_traits().filter(|t| thorough || t.quick).count()));
+    cov.insert("methods_in_tier".into(), json!(engine::all_traits().filter(|t| thorough || t.quick).map(|t| t.methods.len() + 1).sum::<usize>()));
+    cov.insert("objects_tracked".into(), json!(g("objects_tracked")));
+    let sub = |prefix: &str| -> Map<String, Value> { stats.0.iter().filter(|(k, _)| k.starts_with(prefix)).map(|(k, v)| (k[prefix.len()..].to_string(), json!(v))).collect() };
+    let oc = sub("oc.");
+    cov.insert("distinct_outcomes".into(), json!(oc.len()));
+    cov.insert("outcome_classes".into(), Value::Object(oc));
+    cov.insert("nontrivial_by_rule".into(), Value::Object(sub("nt.")));
+    cov.insert("reference_arguments_passed_by_ref".into(), Value::Object(sub("byref.")));
+    cov.insert("workers_abandoned_after_connect_panic".into(), json!(g("workers_abandoned_after_connect_panic")));
+    cov.insert(
+        "rule".into(),
+        json!("state = (generated trait method, argument values, return specification, keep-owned-arguments flag, panic payload kind, drop order); every state is executed directly and through AbiConnection::from_boxed_trait and the event traces compared. Non-trivial = the modelled argument block is in a FlexBuffer and exceeds 64 bytes (spill), or a reference argument is measured (get_arg_passable_by_ref) as passed by reference or as serialized, or an owned object (boxed trait object / boxed closure / future) crosses the boundary, or the implementation panics."),
+    );
+    cov.insert(
+        "bounds".into(),
+        json!({"strings": if thorough { "every length 0..=140, 255..257, 1000, 4095..4097, 70000, multi-byte" } else { "every length 0..=80, multi-byte" },
+               "vectors": if thorough { "0,1,2,3,12..17,63,64,65,255..257,1000" } else { "0,1,2,12,13,14,63,64,65" },
+               "string pairs": if thorough { "all (i,j) in 0..=64 x 0..=64" } else { "i in 34..=53 x j in {0,1,2,7,8,9}" },
+               "panic payloads": "static_str, formatted_string, any(i32), static_str raised inside a caller-side closure",
+               "future schedules": if thorough { "0..=4 Pending rounds x wake during/deferred x drop after 0..=n polls" } else { "0..=2 Pending rounds x wake during/deferred x drop after 0..=n polls" },
+               "max arguments": 64, "method counts": if thorough { "64, 65, 200" } else { "64, 65" }}),
+    );
+    cov
+}
+
+fn replay(path: &std::path::Path) -> ! {
+    let text = std::fs::read_to_string(path).unwrap_or_else(|e| vcommon::machinery_error(&format!("replay file: {}", e)));
+    let doc: Value = vcommon::serde_json::from_str(&text).unwrap_or_else(|e| vcommon::machinery_error(&format!("replay json: {}", e)));
+    let Some(case) = Case::from_json(&doc["case"]) else {
+        vcommon::machinery_error("replay: case is not a C09 call case");
+    };
+    let Some(tm) = engine::find_trait(&case.tr) else {
+        vcommon::machinery_error(&format!("replay: unknown trait {}", case.tr));
+    };
+    let Some(mi) = tm.methods.iter().position(|m| m.name == case.method) else {
+        vcommon::machinery_error(&format!("replay: unknown method {}::{}", case.tr, case.method));
+    };
+    let mm = &tm.methods[mi];
+    if case.args.len() != mm.args.len() {
+        vcommon::machinery_error("replay: wrong number of arguments");
+    }
+    println!("replaying {}::{}({}) -> {} panic={} keep={} order={}", tm.name, mm.name, mm.args.join(", "), mm.ret, case.panic, case.keep, case.order);
+    vcommon::child::install_crash_handler();
+    vcommon::child::set_state("replay");
+    let mut st = Stats::default();
+    let o = engine::check_case(tm, mi, &case, &mut st);
+    if let Some(m) = o.machinery {
+        vcommon::machinery_error(&m);
+    }
+    for v in &o.violations {
+        println!("REPLAY-FAIL oracle={} {}", v.oracle, v.summary);
+    }
+    if o.violations.is_empty() {
+        println!("replay: direct and ABI runs agree, all oracles hold ({} oracle evaluations)", st.0.get("evaluations").copied().unwrap_or(0));
+    }
+    println!("replay: {} violation(s) reproduced", o.violations.len());
+    std::process::exit(if o.violations.is_empty() { 0 } else { 1 })
+}
+
 fn main() {
-    vcommon::machinery_error("vabi09 not implemented yet");
+    vcommon::quiet_panics();
+    let args = parse_args();
+    if args.property != "C09" {
+        vcommon::machinery_error(&format!("vabi09 does not serve property {}", args.property));
+    }
+    if let Some(p) = &args.replay {
+        replay(p);
+    }
+    if let Some(i) = args.extra.iter().position(|a| a == "--child") {
+        let k: usize = args.extra[i + 1].parse().unwrap();
+        let n: usize = args.extra[i + 2].parse().unwrap();
+        let num = |key: &str, d: i64| -> i64 { args.extra.iter().position(|a| a == key).map(|j| args.extra[j + 1].parse().unwrap()).unwrap_or(d) };
+        child(args.tier == Tier::Thorough, k, n, (num("--resume-after", -1), num("--resume-sno", 0) as u64));
+    }
+    let mut run = Run::new(&args, "model_checking");
+    let cov = parent(&mut run);
+    let assumptions = vec![
+        "caller and implementation live in the same binary (AbiConnection::from_boxed_trait), so both sides have identical layouts and the same savefile version; cross-version and cross-layout behaviour is C10/C11".to_string(),
+        "the direct call of the recording implementation is the reference; it is itself checked (drops exactly once, panics exactly when asked)".to_string(),
+        "'spilled' is classified with a model of the argument encoding (4-byte version + per-argument encodings), not observed inside savefile-abi".to_string(),
+        "a double drop is recognised by a magic word in the object (while the memory has not been reused) or by the allocator aborting the worker process".to_string(),
+    ];
+    run.finish(cov, assumptions)
 }
